@@ -175,10 +175,11 @@ impl<'a> Compiler<'a> {
             hash_key: n.handle,
             arity: n.arguments.len() as u32,
         };
-        if self.jump_table.contains(n.name.as_ref()) {
-            return Err(self.error(CompilationErrorPayload::DuplicateName(n.name.to_string())));
+        let name = n.full_name();
+        if self.jump_table.contains(name.as_str()) {
+            return Err(self.error(CompilationErrorPayload::DuplicateName(name)));
         }
-        self.jump_table.insert(n.full_name(), metadata).unwrap();
+        self.jump_table.insert(name, metadata).unwrap();
         Ok(())
     }
 
